@@ -702,6 +702,9 @@ func parseResponse(form string, codec string, accept []string, rv *RespView, new
 		}
 		return false
 	}
+	if form != FormGRPC && len(rv.Trailers) > 0 {
+		o.problem("stray HTTP trailers %v: %s does not use HTTP trailers", sortedKeys(rv.Trailers), form)
+	}
 	switch form {
 	case FormGRPC, FormGRPCWeb:
 		base := "application/grpc"
@@ -968,13 +971,6 @@ func parseResponse(form string, codec string, accept []string, rv *RespView, new
 				name := strings.TrimPrefix(k, "Trailer-")
 				if !isControlHeader(name) {
 					o.Trailers[name] = append([]string(nil), v...)
-				}
-			}
-		}
-		if len(rv.Trailers) > 0 {
-			for k := range rv.Trailers {
-				if !isControlHeader(k) {
-					o.problem("connect unary response carries HTTP trailer %q instead of a Trailer- header", k)
 				}
 			}
 		}
